@@ -621,6 +621,96 @@ Proof.
   now rewrite ritems_fuel_enough by lia.
 Qed.
 
+Local Open Scope N_scope.
+(* ================================================================ httpHeaderParseQuotedString terminates within its fuel *)
+Lemma nthN_beyond {A} (l : list A) : forall i, lenN l <= i -> nthN i l = None.
+Proof.
+  induction l as [|x l IH]; intros i H; cbn [nthN]; [reflexivity|].
+  cbn [lenN] in H. destruct (i =? 0) eqn:E; [lia|]. apply IH. lia.
+Qed.
+Lemma byte_at_beyond p i : lenN p <= i -> byte_at p i = 0.
+Proof. intros H. unfold byte_at. now rewrite nthN_beyond. Qed.
+
+Definition run_cond (p : bytes) (len e : N) : bool :=
+  let c := byte_at p e in (e <? len) && negb (c =? 92) && negb (c =? 34) && (31 <? c) && negb (c =? 127).
+Lemma run_end_unfold f p len e :
+  qs_run_end (S f) p len e = if run_cond p len e then qs_run_end f p len (e + 1) else e.
+Proof. reflexivity. Qed.
+Lemma run_end_ge f : forall p len e, e <= qs_run_end f p len e.
+Proof.
+  induction f as [|f IH]; intros p len e; [cbn [qs_run_end]; lia|].
+  rewrite run_end_unfold. destruct (run_cond p len e); [specialize (IH p len (e + 1)); lia|lia].
+Qed.
+Lemma run_end_stay f p len e : run_cond p len e = false -> qs_run_end f p len e = e.
+Proof. intros H. destruct f as [|f]; [reflexivity|]. rewrite run_end_unfold, H. reflexivity. Qed.
+Lemma run_end_advance f p len e : run_cond p len e = true -> e < qs_run_end (S f) p len e.
+Proof. intros H. rewrite run_end_unfold, H. pose proof (run_end_ge f p len (e + 1)). lia. Qed.
+
+Lemma lenN_pos_length (p : bytes) : 0 < lenN p -> exists f, length p = S f.
+Proof. destruct p as [|x p]; cbn [lenN length]; [lia|]. intros _. now exists (length p). Qed.
+
+Lemma qs_loop_fuel : forall fuel p len pos val,
+  (N.to_nat (lenN p) + 1 - N.to_nat pos < fuel)%nat -> qs_loop fuel p len pos val <> QsFuel.
+Proof.
+  induction fuel as [|f IH]; intros p len pos val Hm; [lia|].
+  cbn [qs_loop].
+  destruct (negb (byte_at p pos =? 34) && (pos <? len)) eqn:Eloop.
+  2:{ destruct (byte_at p pos =? 34); discriminate. }
+  apply andb_prop in Eloop. destruct Eloop as [E34 Elen].
+  destruct (lenN p <=? pos) eqn:Eb.
+  { (* reading the terminating NUL: a CTL octet *)
+    assert (Hb : byte_at p pos = 0) by (apply byte_at_beyond; lia).
+    repeat (rewrite !Hb; repeat match goal with |- context [0 =? ?k] => change (0 =? k) with false end; cbv iota).
+    rewrite run_end_stay by (unfold run_cond; rewrite Hb; lia).
+    rewrite Hb. cbn. discriminate. }
+  assert (Hlt : pos < lenN p) by lia.
+  destruct (byte_at p pos =? 13) eqn:E13.
+  { destruct ((len <? pos + 1) || negb (byte_at p (pos + 1) =? 10)) eqn:Ec; [discriminate|].
+    apply orb_false_elim in Ec. destruct Ec as [_ Ec]. apply negb_false_iff in Ec. rewrite Ec.
+    destruct ((len <? pos + 1 + 1) || _); [discriminate|]. apply IH. lia. }
+  destruct (byte_at p pos =? 10) eqn:E10.
+  { destruct ((len <? pos + 1) || _); [discriminate|]. apply IH. lia. }
+  destruct (byte_at p pos =? 92) eqn:E92.
+  { destruct ((byte_at p (pos + 1) =? 0) || (len <? pos + 1)); [discriminate|].
+    match goal with |- context [qs_run_end ?a ?b ?c ?d] => pose proof (run_end_ge a b c d) as Hge; set (e := qs_run_end a b c d) in * end.
+    destruct (_ || (byte_at p e =? 127)); [discriminate|]. apply IH. lia. }
+  (* ordinary octet at pos *)
+  destruct (run_cond p len pos) eqn:Erc.
+  - destruct (lenN_pos_length p ltac:(lia)) as [f' Hf']. rewrite Hf'.
+    pose proof (run_end_advance f' p len pos Erc) as Hadv.
+    set (e := qs_run_end (S f') p len pos) in *.
+    destruct (_ || (byte_at p e =? 127)); [discriminate|]. apply IH. lia.
+  - rewrite run_end_stay by exact Erc.
+    unfold run_cond in Erc. cbv zeta in Erc. rewrite Elen, E92 in Erc. apply negb_true_iff in E34. rewrite E34 in Erc.
+    cbn [negb andb] in Erc.
+    assert (Hctl : ((byte_at p pos <=? 31) && negb (byte_at p pos =? 13) && negb (byte_at p pos =? 10)
+                    || (byte_at p pos =? 127)) = true) by lia.
+    rewrite Hctl. discriminate.
+Qed.
+
+Theorem parse_quoted_never_out_of_fuel p len : parse_quoted p len <> QsFuel.
+Proof.
+  unfold parse_quoted. destruct (negb (byte_at p 0 =? 34)); [discriminate|].
+  apply qs_loop_fuel. rewrite lenN_length. lia.
+Qed.
+
+(* the recorded fuel_out flag is therefore never set *)
+Lemma cc_step_fuel c itc : fuel_out c = false -> fuel_out (cc_step c itc) = false.
+Proof.
+  intros H. destruct itc as [it ctx]. unfold cc_step. set (t := item_type it). clearbody t.
+  cc_cascade t; cbn [fuel_out]; try exact H; rewrite H; cbn [orb];
+    (destruct (find_eq it 0) as [i|]; [|reflexivity]);
+    match goal with |- context [parse_quoted ?a ?b] => pose proof (parse_quoted_never_out_of_fuel a b) as Hq; destruct (parse_quoted a b) end;
+    try reflexivity; congruence.
+Qed.
+Lemma cc_fold_fuel l : forall c, fuel_out c = false -> fuel_out (fold_left cc_step l c) = false.
+Proof. induction l as [|x l IH]; intros c H; cbn [fold_left]; [exact H|]. apply IH. now apply cc_step_fuel. Qed.
+Theorem cc_parse_total s c : cc_parse s = Some c -> fuel_out c = false.
+Proof.
+  unfold cc_parse. destruct (cc_mask_nonzero (cc_fold s)); [|discriminate]. intros H. injection H as <-.
+  unfold cc_fold. now apply cc_fold_fuel.
+Qed.
+
 (* ================================================================ text-level statement *)
 Local Open Scope Z_scope.
 (* "sent with directive d": some comma-separated, OWS-trimmed, non-empty element of the combined field value is d or d=... *)
